@@ -1,6 +1,8 @@
 """C13 - sample addresses map to the right link-time address in ELF binaries."""
 import json
 import os
+import shutil
+import subprocess
 
 from lib import vcheck
 
@@ -14,6 +16,24 @@ def run(ctx, replay):
             f.write(json.dumps(r["case"]) + "\n")
         ctx.harness(binary, cases=cases, n=0)
         return ctx.finish("model_checking")
+    # the arithmetic core for unbounded integers (Apalache): base = bias for every layout that satisfies the gABI
+    # congruence; without the congruence a counterexample must exist (vacuity guard)
+    adir = os.path.join(ctx.scratch, "apalache")
+    os.makedirs(adir, exist_ok=True)
+    shutil.copy(os.path.join(vcheck.VERIF, "spec", "ElfBase.tla"), adir)
+    apal = {}
+    for name, init, want in (("ElfBase", "Init", "NoError"), ("ElfBase-noCongruence", "InitNoCongruence", "Error")):
+        try:
+            p = subprocess.run(["timeout", "600", "apalache-mc", "check", "--init=" + init, "--inv=Inv", "--length=0", "ElfBase.tla"],
+                               cwd=adir, env=ctx.env, capture_output=True, text=True, errors="replace", timeout=700)
+        except Exception as e:
+            raise vcheck.Infra("apalache: %s" % e)
+        m = [l for l in p.stdout.splitlines() if "The outcome is:" in l]
+        got = m[-1].split("The outcome is:")[1].split()[0] if m else "none"
+        apal[name] = got
+        if got != want:
+            raise vcheck.Infra("apalache %s: outcome %s, expected %s\n%s" % (name, got, want, p.stdout[-1500:]))
+    ctx.extra_cov["apalache"] = apal
     ctx.tlc("ElfLoad", "MCElfLoad.cfg", consts={"Tier": ctx.tier, "Emit": True}, emit_to=cases, timeout=1800, name="ElfLoad")
     ctx.harness(binary, cases=cases, n=0)
     return ctx.finish(
@@ -21,5 +41,5 @@ def run(ctx, replay):
         assumptions=["ground truth = System V loader semantics for PT_LOAD segments (gABI: offset and vaddr congruent modulo the page size), not any particular linker's habits",
                      "ELF user space only; Mach-O, PE and the kernel heuristics are not covered",
                      "a lookup past the end of the last symbol may return that symbol or nothing",
-                     "Apalache run for unbounded integers was planned in DESIGN.md but not built in this session"],
+                     "ElfBase.tla (Apalache, unbounded integers, not uint64 wrap-around) proves base = bias for the transcribed formula; the harness checks that elfexec.GetBase evaluates that formula on every enumerated case"],
         exhaustive=True)
